@@ -58,8 +58,11 @@ fn alphabet(thorough: bool) -> Vec<Record> {
         // 5: MX whose exchange is compressible against record 3's rdata
         Record::from_rdata(n("example.com."), 5, RData::MX(MX::new(10, n("mail.ns2.example.com.")))),
     ];
+    // 6: small record whose owner equals the owner of the 60-byte TXT (record 1): after the TXT
+    //    is rolled back, its compression targets must be gone too
+    v.push(Record::from_rdata(n("txt.example.com."), 300, RData::A(A::new(192, 0, 2, 7))));
     if thorough {
-        // 6: 300-byte TXT (two strings)
+        // 7: 300-byte TXT (two strings)
         v.push(Record::from_rdata(
             n("big.example.com."),
             9,
